@@ -19,6 +19,7 @@ META = dict(
     technique='TLA+ critical-section model checked exhaustively by TLC; TLC judgement of exhaustive call sequences executed on the real class; TLC trace validation (linearizability against the abstract held set) of recorded concurrent executions',
     design='3/C18')
 
+JOPTS = {'JAVA_TOOL_OPTIONS': '-XX:ParallelGCThreads=2 -XX:CICompilerCount=2'}      # many JVMs run side by side
 KNOWN_TEXT = {
     'F11': 'two held ranges that cover no byte at the same offset (zero length, or offset+length saturating at offset, e.g. (2^64-1,5) and (2^64-1,6)) are each "less than" the other: std::set precondition violated (common/range-lock.h:124-127), the second insertion unlinks a stored entry and a later overlapping request is granted',
     'C18a': 'unlock(offset, length) does not release a range that covers no byte locked as (offset, length) through try_lock_wait (lower_bound skips it, common/range-lock.h:48): the entry stays forever and blocks every later request around that offset',
@@ -31,6 +32,8 @@ PROVISIONAL = {'F11', 'C18a', 'C18b'}
 
 
 def tolerated(ctx):
+    if 'VERIF_C18_TOLERATE' in os.environ:          # self-test on a scratch copy (e.g. with the proposed repair applied): explicit list, may be empty
+        return {k for k in os.environ['VERIF_C18_TOLERATE'].split(',') if k}
     listed = {f['id'] for f in ctx.kf.get('open', []) if f.get('property') == 'C18' and f.get('id') in KNOWN_TEXT}
     return set(PROVISIONAL) | listed
 
@@ -116,6 +119,11 @@ def model_check(ctx, tol):
     jobs.append(('pass', 'patched', f'{vtlib.SPEC}/MC_RangeLock_patched_{size}.cfg', 'proposed repair: FixEmpty + FixAdjust'))
     if t != 'quick':
         jobs.append(('pass', 'patched_intr', f'{vtlib.SPEC}/MC_RangeLock_patched_intr.cfg', 'proposed repair, sleeping calls interrupted'))
+        jobs.append(('pass', 'patched_live', f'{vtlib.SPEC}/MC_RangeLock_patched_live.cfg', 'proposed repair, liveness: a thread sleeping in lock() eventually acquires (weak fairness, lock()-only callers)'))
+        # word 0..7 (the scope named in DESIGN.md) is far too large to exhaust: seeded random behaviours
+        jobs.append(('sim', 'patched_sim7', f'{vtlib.SPEC}/MC_RangeLock_patched_sim7.cfg', 'proposed repair, word 0..7, random behaviours'))
+        jobs.append(('sim', 'asis_rest_sim7', _cfg(ctx, 'MC_RangeLock_asis_sim7.cfg', 'MC_RangeLock_asis_rest_sim7.cfg', INVARIANTS=inv, **sub),
+                     'as written outside the recorded findings, word 0..7, random behaviours'))
     # (d) anti-vacuity: deliberately broken variants of the repaired design must be caught
     EXPECT = {'nonotify': {'WaiterAttached', 'NoStaleWaiter', 'NoStuck'}, 'adjnocheck': {'HeldDisjoint', 'IndexOrdered', 'LookupExact'},
               'lbskip': {'HeldDisjoint', 'IndexOrdered', 'LookupExact'}}
@@ -124,16 +132,22 @@ def model_check(ctx, tol):
 
     def work(j):
         kind, key, cfgp, what = j
-        return j, ctx.mc('MC_RangeLock', cfgp, timeout=1500, workers=4 if kind != 'pass' else 6, count=(kind == 'pass'), xmx='6g',
+        if kind == 'sim':
+            return j, ctx.mc('MC_RangeLock', cfgp, timeout=1500, workers=2, simulate=400, depth=40, xmx='4g', env=dict(JOPTS),
+                             extra_args=('-seed', str(ctx.seed)), tag=os.path.basename(cfgp).replace('.cfg', ''))
+        return j, ctx.mc('MC_RangeLock', cfgp, timeout=1500, workers=4 if kind != 'pass' else 6, count=(kind == 'pass'), xmx='6g', env=dict(JOPTS),
                          tag=os.path.basename(cfgp).replace('.cfg', ''))
     with ThreadPoolExecutor(max_workers=len(jobs)) as ex:
         results = list(ex.map(work, jobs))
     ok, doc, caught = True, {}, {}
     for (kind, key, cfgp, what), r in results:
-        if kind == 'pass':
+        if kind in ('pass', 'sim'):
+            if kind == 'sim':
+                m = re.search(r'The number of states generated: (\d+)', r['out'])
+                ctx.extra.setdefault('random_behaviours_word_0_7', {})[key] = {'states_checked': int(m.group(1)) if m else 0, 'rc': r['rc']}
             if r['rc'] != 0:
                 rp = ctx.save_replay(f'mc_{os.path.basename(cfgp)}.txt', r['out'][-8000:])
-                ctx.violation(f'specification RangeLock ({what}) violates {r["inv_violated"] or "a property"}', rp)
+                ctx.violation(f'specification RangeLock ({what}) violates {r["inv_violated"] or ("a temporal property" if r["prop_violated"] else "a property")}', rp)
                 ok = False
         elif kind == 'finding':
             fid, invs = key
@@ -163,7 +177,8 @@ def model_check(ctx, tol):
 def seq_plans(tier):
     """(tag, harness args): exhaustive scopes + random sequences"""
     if tier == 'quick':
-        return [('top_S3_len3', ['--prim', 'seq', '--S', 3, '--len', 3, '--top', 1]),
+        return [('top_S2_len3', ['--prim', 'seq', '--S', 2, '--len', 3, '--top', 1]),
+                ('top_S3_len3_handle', ['--prim', 'seq', '--S', 3, '--len', 3, '--top', 1, '--alpha', 'handle']),
                 ('top_S2_len4_lock', ['--prim', 'seq', '--S', 2, '--len', 4, '--top', 1, '--alpha', 'lock']),
                 ('top_S7_len2', ['--prim', 'seq', '--S', 7, '--len', 2, '--top', 1]),
                 ('low_S3_len2', ['--prim', 'seq', '--S', 3, '--len', 2, '--top', 0, '--base', 4096]),
@@ -248,72 +263,92 @@ def _show(row):
     return f'[word top M={row["M"]}] ' + ' '.join(out) if row['M'] < 1000 else '[low word] ' + ' '.join(out)
 
 
-def run_seq(ctx, h, tol):
-    tot, okr, hits, scopes = 0, 0, {}, {}
-    for tag, args in seq_plans(ctx.tier):
-        trace = f'{ctx.out}/seq_{tag}.ndjson'
-        rc, o, e = ctx.run_harness(h, args + ['--seed', ctx.seed, '--out', trace], timeout=1500, ok_rcs=(0, 3, 4))
-        if rc == 124:
-            raise vtlib.InfraError(f'h_rangelock {args} timed out')
-        n, k, hh = judge_rows(ctx, trace, tol, tag)
-        if n == 0:
-            raise vtlib.InfraError(f'h_rangelock {args} recorded nothing')
-        scopes[tag] = n
-        tot += n; okr += k
-        for f, c in hh.items():
-            hits[f] = hits.get(f, 0) + c
-        if tag.startswith('top_S3') and len(ctx.samples) < 4:
+def record_seq(ctx, h):
+    """run the sequential scopes on the real code; all rows go to one file (every row carries its word)"""
+    allp = f'{ctx.out}/seq_all.ndjson'
+    scopes = {}
+    with open(allp, 'w') as out:
+        for tag, args in seq_plans(ctx.tier):
+            trace = f'{ctx.out}/seq_{tag}.ndjson'
+            rc, o, e = ctx.run_harness(h, args + ['--seed', ctx.seed, '--out', trace], timeout=1500, ok_rcs=(0, 3, 4))
+            if rc == 124:
+                raise vtlib.InfraError(f'h_rangelock {args} timed out')
+            n = 0
             with open(trace) as f:
-                rows = f.readlines()
-            ctx.samples.append({'sequential_case': json.loads(rows[len(rows) // 3])})
-        os.unlink(trace)
-    ctx.extra.update({'sequences_executed_on_real_code': tot, 'sequences_accepted_by_the_property': okr,
+                for line in f:
+                    out.write(line); n += 1
+                    if n == 1000 and tag.startswith('top_S') and len(ctx.samples) < 3:
+                        ctx.samples.append({'sequential_case': json.loads(line)})
+            if n == 0:
+                raise vtlib.InfraError(f'h_rangelock {args} recorded nothing')
+            scopes[tag] = n
+            os.unlink(trace)
+    return allp, scopes
+
+
+def run_seq(ctx, allp, scopes, tol):
+    total = sum(scopes.values())
+    par = 12
+    chunk = max(5000, min(60000, total // par + 1))
+    n, k, hits = judge_rows(ctx, allp, tol, 'all', chunk=chunk, par=par)
+    os.unlink(allp)
+    ctx.extra.update({'sequences_executed_on_real_code': n, 'sequences_accepted_by_the_property': k,
                       'sequences_explained_only_by_recorded_findings': hits, 'sequential_scopes': scopes})
 
 
 # ------------------------------------------------------------------------------------------------ concurrent conformance
-def run_conc(ctx, h, tol):
+def record_conc(ctx, h):
     t = ctx.tier
     modes = [('dir', 18, 1), ('conc', 160, 4)] if t == 'quick' else [('dir', 45, 1), ('conc', 3000, 12)]
-    kf_all = {'KF_' + k: '1' for k in tol}
-    n_exec = 0
-    kinds = {}
+    rows, kinds = [], {}
     for prim, execs, batches in modes:
-        rows = []
+        got = 0
         for b in range(batches):                      # several processes: a crash or hang costs one batch only
             trace = f'{ctx.out}/{prim}_{b}.ndjson'
             rc, o, e = ctx.run_harness(h, ['--prim', prim, '--execs', execs // batches, '--seed', ctx.seed * 100 + b, '--vcpus', 3, '--threads', 4,
                                             '--ops', 5, '--out', trace], timeout=1500, ok_rcs=(0, 3, 4))
             if rc == 124:
                 raise vtlib.InfraError(f'h_rangelock --prim {prim} timed out')
-            rows += vtlib.read_ndjson(trace)
+            part = vtlib.read_ndjson(trace)
+            got += len(part)
+            rows += part
             os.unlink(trace)
-        if not rows:
+        if not got:
             raise vtlib.InfraError(f'h_rangelock --prim {prim} recorded nothing')
-        for r in rows:
-            k = r['e'] + (':' + str(r['op']) if 'op' in r else '') + (':refused' if r['e'] == 'Resp' and r.get('r') == 0 else '')
-            kinds[k] = kinds.get(k, 0) + 1
-        # pass 1: the property plus the switches of the recorded findings: whatever is still rejected is new
-        acc, rejs, n = tracecheck.validate(ctx, 'Trace_RangeLockA', 'Trace_RangeLockA.cfg', rows, extra_env=kf_all, tagbase=f'rlA_{prim}', max_rej=4)
-        n_exec += n
-        tracecheck.report(ctx, rejs, prim, name=f'rlA_{prim}')
-        ex = tracecheck.split_execs(rows)
-        if len(ctx.samples) < 8:
-            ctx.samples.append({'mode': prim, 'recorded_execution': ex[min(2, len(ex) - 1)][:40]})
-        # pass 2: which recorded findings were needed?  (one switch off at a time; a chunk that is now rejected needed it)
-        bad = {id(rj['exec'][0]) for rj in rejs}
-        good = [e for e in ex if id(e[0]) not in bad]
-        for fid in sorted(tol):
-            env = {k: v for k, v in kf_all.items() if k != 'KF_' + fid}
-            hit = _first_rejected(ctx, good, env, f'rlA_{prim}_no{fid}')
-            if hit is not None:
-                ctx.known(fid, KNOWN_TEXT[fid] + f' (real RangeLock, recorded {prim} execution: ' + _brief(hit) + ')')
-                ctx.extra.setdefault('recorded_findings_in_executions', {}).setdefault(fid, []).append(prim)
-    ctx.extra['executions_recorded'] = n_exec
+    for r in rows:
+        k = r['e'] + (':' + str(r['op']) if 'op' in r else '') + (':refused' if r['e'] == 'Resp' and r.get('r') == 0 else '')
+        kinds[k] = kinds.get(k, 0) + 1
     ctx.extra['event_kinds'] = kinds
+    return rows
 
 
-def _first_rejected(ctx, execs, env, tag, chunk_events=2500, par=8):
+def run_conc(ctx, rows, tol):
+    kf_all = {'KF_' + k: '1' for k in tol}
+    kf_all.update(JOPTS)
+    ex = tracecheck.split_execs(rows)
+    # executions used to tell which recorded findings were met: the directed arrival orders and the first random ones
+    ex2 = [e for e in ex if e[0].get('prim') == 'dir'] + [e for e in ex if e[0].get('prim') != 'dir'][:60 if ctx.tier == 'quick' else 600]
+    for e in ex:
+        if e[0].get('prim') == 'conc' and len(ctx.samples) < 8:
+            ctx.samples.append({'recorded_execution': e[:40]})
+            break
+    with ThreadPoolExecutor(max_workers=1 + len(tol)) as pool:
+        # pass 1: the property plus the switches of the recorded findings: whatever is still rejected is new
+        f1 = pool.submit(tracecheck.validate, ctx, 'Trace_RangeLockA', 'Trace_RangeLockA.cfg', rows, extra_env=kf_all, tagbase='rlA', max_rej=4, par=6)
+        # pass 2: which recorded findings were needed?  (one switch off at a time; an execution that is now rejected needed it)
+        f2 = {fid: pool.submit(_first_rejected, ctx, ex2, {k: v for k, v in kf_all.items() if k != 'KF_' + fid}, f'rlA_no{fid}') for fid in sorted(tol)}
+        acc, rejs, n = f1.result()
+        hits = {fid: f.result() for fid, f in f2.items()}
+    tracecheck.report(ctx, rejs, 'recorded execution', name='rlA')
+    bad = {id(rj['exec'][0]) for rj in rejs}
+    for fid, hit in hits.items():
+        if hit is not None and id(hit[0]) not in bad:
+            ctx.known(fid, KNOWN_TEXT[fid] + f' (real RangeLock, recorded {hit[0].get("prim")} execution: ' + _brief(hit) + ')')
+            ctx.extra.setdefault('recorded_findings_in_executions', []).append(fid)
+    ctx.extra['executions_recorded'] = n
+
+
+def _first_rejected(ctx, execs, env, tag, chunk_events=2500, par=4):
     """validate chunks without isolating; returns one execution that is rejected under `env` (or None)"""
     chunks, cur, n = [], [], 0
     for e in execs:
@@ -351,12 +386,17 @@ def run(ctx):
     tol = tolerated(ctx)
     size = 'quick' if ctx.tier == 'quick' else 'thorough'
     ctx.samples.append({'constants': open(f'{vtlib.SPEC}/MC_RangeLock_patched_{size}.cfg').read()})
-    if not os.environ.get('VERIF_SKIP_MC') and not model_check(ctx, tol):
-        return ctx.finish()
+    # the real code first (the harness is timing-sensitive: settle detection, watchdog), then all TLC work side by side
     ctx.build_lib()
     h = ctx.build_harness('h_rangelock')
-    run_seq(ctx, h, tol)
-    run_conc(ctx, h, tol)
+    allp, scopes = record_seq(ctx, h)
+    rows = record_conc(ctx, h)
+    with ThreadPoolExecutor(max_workers=3) as pool:
+        fs = [pool.submit(run_seq, ctx, allp, scopes, tol), pool.submit(run_conc, ctx, rows, tol)]
+        if not os.environ.get('VERIF_SKIP_MC'):
+            fs.append(pool.submit(model_check, ctx, tol))
+        for f in fs:
+            f.result()
     ctx.extra['findings_tolerated_by_switch'] = sorted(tol)
     ctx.assumptions = ['sequential consistency in the specification; m_lock makes every RangeLock operation one critical section',
                        'callers follow the discipline stated in RangeLock.tla (no request touching an own range, lock() only while holding nothing, unlock by range exactly what was locked by range)',
